@@ -80,7 +80,11 @@ def n_adapt(it, a, d, m):
     if not isinstance(src, It):
         if kind == "next" and isinstance(src, Struct):
             return pm.n_range_next(it, a, d, m)  # Range<usize>
-        raise Unsupported(f"iterator adaptor on {src!r}")
+        if isinstance(src, Struct) and 0 in src and 1 in src and isinstance(src[0], I) and isinstance(src[1], I):
+            # Range<usize> used as an iterator with an adaptor
+            src = It([I(i, src[0].ty) for i in range(conc(src[0]), conc(src[1]))])
+        else:
+            raise Unsupported(f"iterator adaptor on {src!r}")
     if kind == "take":
         return It(src.items[:conc(a[1])], src.maps)
     if kind == "skip":
@@ -134,6 +138,43 @@ def n_adapt(it, a, d, m):
     raise Unsupported(kind)
 
 
+class SliceView(list):
+    """&mut v[lo..hi]: reads and writes go through to the parent list"""
+
+    def __init__(self, parent, lo, hi):
+        super().__init__(parent[lo:hi])
+        self.parent, self.lo = parent, lo
+
+    def __setitem__(self, i, v):
+        super().__setitem__(i, v)
+        if isinstance(i, int):
+            self.parent[self.lo + i] = v
+
+    def __getitem__(self, i):
+        if isinstance(i, int):
+            return self.parent[self.lo + (i if i >= 0 else len(self) + i)]
+        return super().__getitem__(i)
+
+
+def n_copy_from_slice(it, a, d, m):
+    dst, src = pm.deref(a[0]), pm.deref(a[1])
+    if len(dst) != len(src):
+        raise Panic("copy_from_slice: source slice length does not match destination slice length", kind="panic")
+    for i in range(len(src)):
+        dst[i] = src[i]
+    return UNIT
+
+
+def n_chunks_exact(it, a, d, m):
+    lst = pm.deref(a[0])
+    n = conc(a[1])
+    return It([Ref({"v": SliceView(lst, i, i + n)}, "v") for i in range(0, len(lst) - len(lst) % n, n)])
+
+
+def n_from_elem(it, a, d, m):
+    return [a[0] for _ in range(conc(a[1]))]
+
+
 def n_index_range(it, a, d, m):
     lst = pm.deref(a[0])
     r = pm.deref(a[1])
@@ -147,6 +188,9 @@ def n_index_range(it, a, d, m):
         lo, hi = conc(fields[0]), conc(fields[1])
     if lo > hi or hi > len(lst):
         raise Panic(f"slice index {lo}..{hi} out of range for length {len(lst)}", kind="panic")
+    if "index_mut" in m.group(0):
+        # a reference to the view: moving a reference never copies the data it points to
+        return Ref({"v": SliceView(lst, lo, hi)}, "v")
     return lst[lo:hi]
 
 
@@ -163,13 +207,26 @@ def n_vec_push(it, a, d, m):
     return UNIT
 
 
+def n_npo2(it, a, d, m):
+    x = a[0].v
+    if isinstance(x, int):
+        return I(1 << (x - 1).bit_length() if x > 1 else 1, "usize")
+    raise Unsupported("next_power_of_two of a symbolic value")
+
+
 NATIVES = [
+    (R(r"core::num::<impl usize>::next_power_of_two"), n_npo2),
     (R(r"core::slice::<impl \[.*\]>::iter"), n_iter),
     (R(r"<&?(?:mut )?(?:std::vec::)?Vec<.*> as IntoIterator>::into_iter|<&\[.*\] as IntoIterator>::into_iter|<&\[.*; \d+\] as IntoIterator>::into_iter|<\[.*; \d+\] as IntoIterator>::into_iter"), n_into_iter),
-    (R(r"<(?:std::iter::)?(?:Take|Skip|Rev|Enumerate|Zip|Chain|FlatMap|Map|Copied|Cloned)<.*> as IntoIterator>::into_iter|<std::slice::Iter<'_, .*> as IntoIterator>::into_iter|<std::vec::IntoIter<.*> as IntoIterator>::into_iter"), pm.n_identity),
+    (R(r"<(?:std::iter::)?(?:Take|Skip|Rev|Enumerate|Zip|Chain|FlatMap|Map|Copied|Cloned|ChunksExactMut|ChunksExact)<.*> as IntoIterator>::into_iter|<std::slice::Iter<'_, .*> as IntoIterator>::into_iter|<std::vec::IntoIter<.*> as IntoIterator>::into_iter"), pm.n_identity),
     (R(r"<.* as (?:Iterator|DoubleEndedIterator)>::(take|skip|rev|enumerate|zip|chain|flat_map|copied|cloned|map|next|collect)(?:::<.*>)?"), n_adapt),
     (R(r"<(?:std::vec::)?Vec<.*> as Index<(?:std::ops::)?(RangeTo|RangeFrom|Range)<usize>>>::index|core::slice::index::<impl Index<(?:std::ops::)?(RangeTo|RangeFrom|Range)<usize>> for \[.*\]>::index"), n_index_range),
     (R(r"<\[.*\] as Index<(?:std::ops::)?(RangeTo|RangeFrom|Range)<usize>>>::index"), n_index_range),
+    (R(r"<(?:std::vec::)?Vec<.*> as IndexMut<(?:std::ops::)?(RangeTo|RangeFrom|Range)<usize>>>::index_mut|<\[.*\] as IndexMut<(?:std::ops::)?(RangeTo|RangeFrom|Range)<usize>>>::index_mut"), n_index_range),
+    (R(r"core::slice::<impl \[.*\]>::copy_from_slice"), n_copy_from_slice),
+    (R(r"core::slice::<impl \[.*\]>::chunks_exact_mut|core::slice::<impl \[.*\]>::chunks_exact"), n_chunks_exact),
+    (R(r"(?:std|alloc)::vec::from_elem::<.*>"), n_from_elem),
+    (R(r"<(?:std::slice::)?ChunksExactMut<.*> as IntoIterator>::into_iter|<(?:std::slice::)?ChunksExact<.*> as IntoIterator>::into_iter"), pm.n_identity),
     (R(r"<(?:std::vec::)?Vec<.*> as TryInto<\[.*; (\d+)\]>>::try_into"), n_try_into_array),
     (R(r"(?:std::vec::)?Vec::<.*>::new|(?:std::vec::)?Vec::<.*>::with_capacity"), lambda it, a, d, m: []),
     (R(r"(?:std::vec::)?Vec::<.*>::push"), n_vec_push),
